@@ -1,3 +1,4 @@
+import Rp2.Props.Tables.Countries
 import Rp2.Proofs.PropsA
 /-! # C05 — long-term vs short-term classification follows the holding period -/
 namespace Rp2.C05
@@ -7,4 +8,9 @@ theorem long_iff (period : Int) (f : Fraction) :
 theorem income_short (period : Int) (f : Fraction) (h : f.lot = none) : f.isLong period = false := isLong_earn period f h
 theorem never_long (period : Int) (f : Fraction) (l : InTx) (hl : f.lot = some l)
     (hspan : f.ev.ts.us - l.ts.us < period * 86400000000) : f.isLong period = false := isLong_never period f l hl hspan
+theorem us_365 : Tables.periodOf "rp2_us" = some 365 := Tables.period_us
+theorem es_365 : Tables.periodOf "rp2_es" = some 365 := Tables.period_es
+theorem jp_never : ∃ p, Tables.periodOf "rp2_jp" = some p ∧ 3652059 < p := Tables.period_jp_never
+theorem ie_never : ∃ p, Tables.periodOf "rp2_ie" = some p ∧ 3652059 < p := Tables.period_ie_never
+theorem generic_configured : Tables.periodOf "rp2_generic" = some 123 := Tables.period_generic_env
 end Rp2.C05
